@@ -16,6 +16,8 @@ TRUSTED = ["harness/c16.py encoders + expectations (Python), tied to lean/Drx/Te
            "correspondence is sampled (generator quality bounds it)",
            "CPython struct/slicing/negative indexing/bytes.decode/%-formatting are modelled in lean/Drx/Py.lean, PyI.lean, Codec.lean "
            "(codec tables dumped from the running interpreter; strict UTF-8 decoder hand-written), not verified"]
+TRUSTED += ["harness/gen_idx_layouts.py: ast translator of the readers' struct.unpack / int(buf[i]) / slice reads, loop counts, entry positions and strides into lean/Drx/Gen/TextLayouts.lean (refuses statement forms it does not recognise); theorems tie every generated field list and shape to the model",
+            "loop rounds of the real readers are counted with sys.monitoring (harness/idx_steps.py) and compared with the Lean counting twins (lean/Drx/IdxSteps.lean)"]
 ASSUMPTIONS = ["DRX_ENCODING in {mac_roman, latin_1, cp1252, ascii, utf_8}", "data offset + text length < 2^31", "style run count < 32768",
                "a font map with duplicate ids is read 'last entry wins' (the property does not say which; such maps are compared "
                "model-vs-implementation only)", "logging ignored"]
